@@ -201,9 +201,21 @@ def main(tier: str, only=None) -> int:
         for p in payloads:
             by.setdefault(p[3][0], []).append(p)
         payloads = []
+        import re as _re
         for fam, ps in by.items():
+            # stratified: hosts are grouped by the *shape* of their tag (numbers blanked), every group is represented and the
+            # groups are drained round-robin up to the budget, so that no sub-family of a large family is dropped by chance
             r.shuffle(ps)
-            payloads += ps[:160]
+            strata = {}
+            for p_ in ps:
+                strata.setdefault(_re.sub(r"-?\d+(\.\d+)?", "#", p_[2]), []).append(p_)
+            budget = max(160, len(strata))
+            picked = []
+            while len(picked) < budget and any(strata.values()):
+                for k_ in list(strata):
+                    if strata[k_] and len(picked) < budget:
+                        picked.append(strata[k_].pop())
+            payloads += picked
     with cf.ProcessPoolExecutor(max_workers=common.jobs()) as ex:
         results = list(ex.map(_worker, payloads, chunksize=4))
     sym_payloads = _sym_payloads(hosts, tier, only)
